@@ -20,7 +20,8 @@ def corr(ctx, res, name, label):
 
 def run(ctx):
     ctx.audit("Props.C03", ["c03_ssh_bound", "c03_x509_bound", "c03_too_long_refused",
-                            "c03_nonpositive_refused", "c03_old_refuted"])
+                            "c03_nonpositive_refused", "c03_old_refuted",
+                            "c03_upgrade_keeps_auth_instant", "c03_bound_after_upgrades"])
     gen = ctx.extract()
     ok, result, log = ctx.go_harness("cmd/keymasterd", "TestVerif_C03",
                                      ["kmd/common.go", "kmd/creds.go", "kmd/consts.go", "kmd/c03.go",
